@@ -2,6 +2,7 @@ package main
 
 import (
 	"fmt"
+	"go/token"
 	"go/types"
 	"strings"
 
@@ -476,9 +477,23 @@ func memoryPassThrough(T *Terms, op *CtxOp) (bool, string) {
 	if tup, ok := iov.Type().(*types.Tuple); ok {
 		nres = tup.Len()
 	}
-	// the object: what the helper's member stores are rooted in (a captured variable of the operation)
-	var obj ssa.Value
-	member := map[int]int{}
+	// the cells: what the helper's stores are rooted in (captured variables of the operation, or members of one)
+	type cell struct {
+		root  ssa.Value
+		field int
+	}
+	cellOf := func(addr ssa.Value) (cell, bool) {
+		if fa, ok := addr.(*ssa.FieldAddr); ok {
+			return cell{T.resolveFree(fa.X), fa.Field}, true
+		}
+		if root := T.resolveFree(addr); root != nil {
+			if al, ok := root.(*ssa.Alloc); ok && al.Parent() == op.Fn {
+				return cell{al, -1}, true
+			}
+		}
+		return cell{}, false
+	}
+	member := map[int]cell{}
 	closed := false
 	for _, b := range op.Closure.Blocks {
 		for _, in := range b.Instrs {
@@ -491,18 +506,13 @@ func memoryPassThrough(T *Terms, op *CtxOp) (bool, string) {
 			if !ok {
 				continue
 			}
-			fa, ok := st.Addr.(*ssa.FieldAddr)
+			cl, ok := cellOf(st.Addr)
 			if !ok {
-				return false, "the helper stores to something other than a member of the outcome object"
+				return false, "the helper stores to something other than a variable of the operation or a member of one"
 			}
 			if closed {
 				return false, "the helper writes the outcome after signalling completion"
 			}
-			root := T.resolveFree(fa.X)
-			if obj != nil && root != obj {
-				return false, "the helper stores its outcome into more than one object"
-			}
-			obj = root
 			found := -1
 			for i := 0; i < nres; i++ {
 				if ex, isEx := st.Val.(*ssa.Extract); isEx && ex.Tuple == iov && ex.Index == i {
@@ -513,21 +523,23 @@ func memoryPassThrough(T *Terms, op *CtxOp) (bool, string) {
 				}
 			}
 			if found < 0 {
-				return false, fmt.Sprintf("member %s of the outcome is not a result of the I/O call", fieldName(fa.X, fa.Field))
+				return false, fmt.Sprintf("%s written by the helper is not a result of the I/O call", strip(T.T(st.Addr)))
 			}
-			if old, dup := member[found]; dup && old != fa.Field {
-				return false, fmt.Sprintf("result #%d of the I/O call is stored in two members", found)
+			if old, dup := member[found]; dup && old != cl {
+				return false, fmt.Sprintf("result #%d of the I/O call is stored in two places", found)
 			}
-			member[found] = fa.Field
+			member[found] = cl
 		}
 	}
 	for i := 0; i < nres; i++ {
 		if _, ok := member[i]; !ok {
 			return false, fmt.Sprintf("result #%d of the I/O call is not handed to the operation", i)
 		}
-	}
-	if obj == nil {
-		return false, "outcome object not found"
+		for j := 0; j < i; j++ {
+			if member[j] == member[i] {
+				return false, fmt.Sprintf("results #%d and #%d of the I/O call are stored in the same place", j, i)
+			}
+		}
 	}
 	n := 0
 	for _, rv0 := range returnedValues(op.Fn, 0) {
@@ -544,13 +556,13 @@ func memoryPassThrough(T *Terms, op *CtxOp) (bool, string) {
 		n++
 		for i, res := range rv0.Ret.Results {
 			ok := false
-			if ld, isLd := res.(*ssa.UnOp); isLd {
-				if fa, isFa := ld.X.(*ssa.FieldAddr); isFa && fa.Field == member[i] && fa.X == obj {
+			if ld, isLd := res.(*ssa.UnOp); isLd && ld.Op == token.MUL {
+				if cl, isCell := cellOf(ld.X); isCell && cl == member[i] {
 					ok = true
 				}
 			}
 			if !ok {
-				return false, fmt.Sprintf("return value #%d on the result path is %s, not the member of the outcome object that carries result #%d of the I/O call", i, strip(T.T(res)), i)
+				return false, fmt.Sprintf("return value #%d on the result path is %s, not the variable that carries result #%d of the I/O call", i, strip(T.T(res)), i)
 			}
 		}
 	}
